@@ -200,7 +200,77 @@ def cases(seed=0):
             }
             for k, (src, exp) in shapes.items():
                 out.append({"group": "nscall", "name": "nscall:%s:%s:%s" % (k, form, pass_on.count("caller")), "src": src, "exp": exp, "form": form})
+    # ---- getdef: a def rendered on its own through Template.get_def(name).render*(), under rarely set Template options
+    # (no error occurs anywhere: the options must not change what the def gives)
+    HEAD = "<%!\ndef tagf(s):\n    return 'f[' + s + ']'\n\ndef deco(fn):\n    def w(context, *a, **k):\n        context.write('<')\n        r = fn(*a, **k)\n        if r:\n            context.write(r)\n        context.write('>')\n        return ''\n    return w\n%>"
+    flav = {
+        "plain": ("", "[A|" + tx + "]"),
+        "buffered": (' buffered="True"', "[A|" + tx + "]"),
+        "filtered": (' filter="tagf"', "f[[A|" + tx + "]]"),
+        "buffered-filtered": (' buffered="True" filter="tagf"', "f[[A|" + tx + "]]"),
+        "decorated": (' decorator="deco"', "<[A|" + tx + "]>"),
+        "buffered-decorated": (' buffered="True" decorator="deco"', "<[A|" + tx + "]>"),
+        "calls-buffered": ("", "[A|" + tx + "]"),
+    }
+    for fk, (attr, exp) in flav.items():
+        if fk == "calls-buffered":
+            src = HEAD + '<%def name="inner(a)" buffered="True">[${a}|' + tx + ']</%def><%def name="d(a=\'A\')">${inner(a)}</%def>page'
+        else:
+            src = HEAD + '<%def name="d(a=\'A\')"' + attr + ">[${a}|" + tx + "]</%def>page"
+        for tkw in ("none", "format_exceptions", "error_handler", "strict_undefined", "enable_loop_off", "output_encoding", "buffer_filters"):
+            for route in ("render_unicode", "render", "render_context"):
+                for arg in ("default", "kw"):
+                    e = exp if arg == "default" else exp.replace("[A|", "[B|")
+                    if tkw == "buffer_filters" and ("buffered" in attr or fk == "calls-buffered"):
+                        # (the decorator wraps the call from outside: the buffer filter sees the def's own content)
+                        e = "<f[" + e[1:-1] + "]>" if fk == "buffered-decorated" else "f[" + e + "]"
+                    out.append({"group": "getdef", "name": "getdef:%s:%s:%s:%s" % (fk, tkw, route, arg), "src": src, "exp": e, "getdef": "d", "tkw": tkw, "route": route, "arg": arg})
     return out
+
+
+def _tkw(name):
+    if name == "none":
+        return {}
+    if name == "format_exceptions":
+        return {"format_exceptions": True}
+    if name == "error_handler":
+        return {"error_handler": lambda context, error: True}
+    if name == "strict_undefined":
+        return {"strict_undefined": True}
+    if name == "enable_loop_off":
+        return {"enable_loop": False}
+    if name == "output_encoding":
+        return {"output_encoding": "utf-16", "encoding_errors": "replace"}
+    if name == "buffer_filters":
+        return {"buffer_filters": ["tagf"]}
+    raise AssertionError(name)
+
+
+def _run_getdef(case, seed, log):
+    from mako.runtime import Context
+    from mako.template import Template
+    from mako.util import FastEncodingBuffer
+
+    t = Template(case["src"], **_tkw(case["tkw"]))
+    outs = []
+    for _ in range(2):
+        d = t.get_def(case["getdef"])
+        kw = dict(ctx(seed, log))
+        if case["arg"] == "kw":
+            kw["a"] = "B"
+        if case["route"] == "render_unicode":
+            outs.append(d.render_unicode(**kw))
+        elif case["route"] == "render":
+            r = d.render(**kw)
+            outs.append(r.decode(t.output_encoding) if isinstance(r, bytes) else r)
+        else:
+            buf = FastEncodingBuffer()
+            a = {"a": kw.pop("a")} if "a" in kw else {}
+            d.render_context(Context(buf, **kw), **a)
+            outs.append(buf.getvalue())
+    if outs[0] != outs[1]:
+        return ("ok", "first render %r, second render %r" % (outs[0], outs[1]))
+    return ("ok", outs[0])
 
 
 def run(case, seed=0):
@@ -208,6 +278,11 @@ def run(case, seed=0):
     from mako.template import Template
 
     log = []
+    if case.get("getdef"):
+        try:
+            return _run_getdef(case, seed, log), log
+        except Exception as e:  # noqa
+            return ("exc", type(e).__name__, str(e)[:200]), log
     try:
         t = Template(case["src"])
         o1 = t.render_unicode(**ctx(seed, log))
